@@ -31,7 +31,8 @@ MANIFEST = {
             'the returned value to be the actual states and rejects a return '
             'before every entity reached/passed a requested state.'
             "  Second session: the oracle uses its own constant of final states (the repository's rps.FINAL list is mutable shared state which a wait call can corrupt for later calls of the same process)."
-            '  Third session: a two-thread workload (400 / 12000 runs) puts wait_tasks on an application thread and the final notifications on a subscriber thread through the real _state_sub_cb, with a yield injected before every acquisition of the manager\'s task lock; the waiter\'s polls are counted and it has to return within 40 polls after the last notification was applied.',
+            '  Third session: a two-thread workload (400 / 12000 runs) puts wait_tasks on an application thread and the final notifications on a subscriber thread through the real _state_sub_cb, with a yield injected before every acquisition of the manager\'s task lock; the waiter\'s polls are counted and it has to return within 40 polls after the last notification was applied.'
+            '  For wait_tasks a task which is past the earliest awaited state has reached it (the rule the method documents), also for the lateness bound.',
     'note': 'bounded-progress restatement of "returns when it should" (3-poll '
             'slack, 50-poll hang threshold); state changes happen between '
             'polls, each state is held for at least one poll; timeout 0 is '
